@@ -1,6 +1,6 @@
 SPECIFICATION Spec
 CONSTANTS
-  Fixed = FALSE
+  FixedGroups <- NoGroups
   Scenarios <- MCScenarios
 INVARIANT GPrint
 CHECK_DEADLOCK FALSE
